@@ -5,6 +5,8 @@ import TantivyModel.Proofs.PostingsRoundtrip
 import TantivyModel.Proofs.BlockSearch
 import TantivyModel.Proofs.CursorSeek
 import TantivyModel.Proofs.Positions
+import TantivyModel.Proofs.TermInfoStore
+import TantivyModel.Proofs.BitPacker4x
 /-!
 # C07 — The inverted index records exactly the terms, documents, frequencies, positions
 
@@ -36,6 +38,28 @@ theorem C07_vint_size (n : Nat) :
   · have := VInt.enc_bytes_lt _ hS n b hb
     have e : VInt.STOP = 128 := by decide
     omega
+
+/-- **The recorders' `u32` encoder** (`serialize_vint_u32`, the unrolled threshold ladder with the
+extracted `START_k` bounds): every `u32` is written on 1..5 bytes, each a `u8`, and
+`read_u32_vint` reads it back together with its length, whatever follows in the buffer.
+The proof goes through `serializeU32_eq_enc`, which needs every threshold to be exactly `128^k`. -/
+theorem C07_vint_u32_roundtrip (v : Nat) (hv : v < 2 ^ 32) (rest : List Nat) :
+    let bytes := VInt.serializeU32 Gen.Postings.VINT32_LADDER Gen.Postings.VINT32_LAST_BYTES
+      Gen.Postings.VINT32_RADIX Gen.Postings.VINT32_STOP_BIT v
+    VInt.readU32 Gen.Postings.VINT_STOP_BIT Gen.Postings.VINT32_MAX_LEN (bytes ++ rest) =
+      some (v, bytes.length) ∧
+    1 ≤ bytes.length ∧ bytes.length ≤ 5 ∧ (∀ b ∈ bytes, b < 256) := by
+  intro bytes
+  have hb : bytes = VInt.enc 128 v := VInt.serializeU32_eq_enc v hv
+  have hS : Gen.Postings.VINT_STOP_BIT = 128 := by decide
+  have hM : Gen.Postings.VINT32_MAX_LEN = 5 := by decide
+  have hlen : (VInt.enc 128 v).length ≤ 5 :=
+    VInt.enc_length_le 128 (by omega) 4 v (Nat.lt_of_lt_of_le hv (by decide))
+  rw [hb, hS, hM]
+  refine ⟨VInt.readU32_enc 128 (by omega) 5 v rest hlen, VInt.enc_length_pos 128 v, hlen, ?_⟩
+  intro b hb'
+  have := VInt.enc_bytes_lt 128 (by omega) v b hb'
+  omega
 
 /-- lists of VInts (the tail of a posting list, the tail of a position stream) -/
 theorem C07_vint_list_roundtrip (S : Nat) (hS : 2 ≤ S) (vs rest : List Nat) :
@@ -128,6 +152,46 @@ theorem C07_positions_addressing (c : Cfg) (hB : 0 < c.B) (hS : 2 ≤ c.S) (hP :
       (((perDoc.take i).map List.length).sum) (perDoc.getD i []).length = some (perDoc.getD i []) :=
   Positions.read_slice c hB hS hP perDoc i hi
 
+/-! ### the modelled BitPacker4x layout meets the contract: hypothesis-free instances -/
+
+/-- the 4-lane byte layout of `BitPacker4x` as modelled (`bp4x`, validated against the real crate by
+cross-decoding in both directions) packs 128 values of `w` bits into `16·w` bytes and unpacks them -/
+theorem C07_bp4x_good : GoodPacker cfg.B bp4x := bp4x_good
+
+/-- the executable model (what the driver runs, `cfg` with `bp4x`): no packer hypothesis left -/
+theorem C07_postings_roundtrip_concrete (o : RecOpt) (docs tfs : List Nat)
+    (hs : docs.Pairwise (· < ·)) (ht : ∀ d ∈ docs, d < Gen.Postings.TERMINATED)
+    (hl : tfs.length = docs.length) (hp : ∀ t ∈ tfs, 1 ≤ t) :
+    decodeAll cfg o docs.length (encodeTerm cfg o docs tfs) = some (docs, if hasFreq o then tfs else []) :=
+  C07_postings_roundtrip cfg o (by decide) (by decide) C07_bp4x_good docs tfs
+    ⟨hs, fun d hd => Nat.lt_trans (ht d hd) (by decide), hl, hp⟩
+
+theorem C07_positions_addressing_concrete (perDoc : List (List Nat)) (i : Nat) (hi : i < perDoc.length) :
+    Positions.read cfg (Positions.encode cfg perDoc.flatten)
+      (((perDoc.take i).map List.length).sum) (perDoc.getD i []).length = some (perDoc.getD i []) :=
+  C07_positions_addressing cfg (by decide) (by decide) C07_bp4x_good perDoc i hi
+
+/-! ### TermInfoStore -/
+
+/-- **TermInfoStore round trip.** For every list of TermInfos whose ranges are ordered, below `2^56`
+(`extract_bits` asserts widths ≤ 56) and back to back inside each block of `BL` terms, the store
+returns for ordinal `n` the `n`-th TermInfo written: reference TermInfo of the block for
+`n % BL = 0`, otherwise the bit-packed deltas read through the unaligned 8-byte window, the end of
+a range being the start of the next entry (or the appended final ends). -/
+theorem C07_terminfo_roundtrip (BL : Nat) (hBL : 0 < BL) (tis : List TermInfoStore.TermInfo)
+    (G : TermInfoStore.GoodStore BL tis) (n : Nat) (hn : n < tis.length) :
+    TermInfoStore.get BL (TermInfoStore.write BL tis) n = some tis[n] :=
+  TermInfoStore.get_write BL hBL tis G n hn
+
+/-- the bit-level core: a field written by `BitPacker::write` after any prefix is read back by
+`extract_bits` at the prefix's bit length, whatever bytes follow the flushed stream -/
+theorem C07_extract_bits_field (pre : List (Nat × Nat)) (v w : Nat) (post : List (Nat × Nat))
+    (hall : TermInfoStore.AllLt (pre ++ (v, w) :: post)) (hw : w ≤ 56) (rest : List Nat)
+    (hrest : TermInfoStore.Bytes rest) :
+    TermInfoStore.extractBits (TermInfoStore.bitBytes (pre ++ (v, w) :: post) ++ rest)
+      (TermInfoStore.totalBits pre) w = v :=
+  TermInfoStore.extractBits_field pre v w post hall hw rest hrest
+
 /-! ### field norms -/
 
 theorem fieldnorm_roundtrip (i : Nat) (hi : i < 256) :
@@ -190,6 +254,10 @@ example : (2 : Nat) ≤ VInt.STOP ∧ Gen.Postings.VINT_RADIX = Gen.Postings.VIN
     Gen.Postings.PVINT_STOP_BIT = Gen.Postings.VINT_STOP_BIT := by decide
 example : VInt.enc VInt.STOP 300 = [44, 130] ∧ VInt.dec VInt.STOP [44, 130, 7] = some (300, [7]) := by
   decide +kernel
+example : VInt.serializeU32 Gen.Postings.VINT32_LADDER Gen.Postings.VINT32_LAST_BYTES
+    Gen.Postings.VINT32_RADIX Gen.Postings.VINT32_STOP_BIT 2097152 = [0, 0, 0, 129] ∧
+    VInt.readU32 Gen.Postings.VINT_STOP_BIT Gen.Postings.VINT32_MAX_LEN [0, 0, 0, 129, 9] = some (2097152, 4) := by
+  decide
 example : ValidList [0, 3, 4, 1000, 2147483646] [1, 2, 1, 300, 7] :=
   ⟨by decide, by decide, by decide, by decide⟩
 example : 0 < cfg.B ∧ 2 ≤ cfg.S ∧ cfg.B = 8 ^ 2 * 2 ∧ cfg.T = 2 ^ 31 - 1 := by decide
@@ -205,6 +273,24 @@ example : run cfg .positions (Cursor.init (chunkBlocks cfg .positions 0 [0, 3, 4
 example : (5 : Nat) < Gen.Postings.BITWIDTH_LIMIT ∧ encodeBitwidth 5 true = 69 := by decide
 example : (invert [[[⟨[97], 0, 1⟩, ⟨[98], 1, 1⟩], [⟨[97], 0, 1⟩]], [], [[⟨[98], 0, 1⟩]]]).terms =
     [([97], [⟨0, 2, [0, 3]⟩]), ([98], [⟨0, 1, [1]⟩, ⟨2, 1, [0]⟩])] := by decide
+example : 0 < TermInfoStore.BLOCK_LEN ∧ TermInfoStore.BLOCK_LEN = 256 := by decide
+theorem C07_terminfo_example_good :
+    TermInfoStore.GoodStore 2 [⟨512, 51, 57, 110, 134⟩, ⟨3, 57, 60, 134, 134⟩, ⟨9, 70, 100, 140, 150⟩] := by
+  refine ⟨?_, ?_, ?_⟩
+  · intro t ht
+    simp at ht
+    rcases ht with rfl | rfl | rfl <;> simp
+  · intro t ht
+    simp at ht
+    rcases ht with rfl | rfl | rfl <;> simp
+  · intro i hi hmod
+    have : i = 0 ∨ i = 1 := by simp at hi; omega
+    rcases this with rfl | rfl
+    · simp
+    · simp at hmod
+example : TermInfoStore.get 2 (TermInfoStore.write 2
+    [⟨512, 51, 57, 110, 134⟩, ⟨3, 57, 60, 134, 134⟩, ⟨9, 70, 100, 140, 150⟩]) 1 = some ⟨3, 57, 60, 134, 134⟩ :=
+  C07_terminfo_roundtrip 2 (by decide) _ C07_terminfo_example_good 1 (by simp)
 example : FieldNorm.fieldnormToId FieldNorm.table 41 = 40 ∧ FieldNorm.idToFieldnorm FieldNorm.table 41 = 42 := by
   decide +kernel
 
